@@ -515,3 +515,66 @@ M('getvalue_pos', 'C18', IO,
   """        val = self.read()
         self.seek(pos if pos < 7 else pos - 1)
         return val""")
+
+IT = 'boltons/iterutils.py'
+# ---------------------------------------------------------------- C09
+M('chunk_islice_off', 'C09', IT,
+  """        cur_chunk = list(itertools.islice(src_iter, size))
+        if not cur_chunk:
+            break""",
+  """        cur_chunk = list(itertools.islice(src_iter, size if size != 5 else 4))
+        if not cur_chunk:
+            break""")
+M('chunk_pad_without_fill', 'C09', IT,
+  """        if lc < size and do_fill:""",
+  """        if lc < size and (do_fill or lc == 3):""")
+M('windowed_zip_not_longest', 'C09', IT,
+  """    return zip_longest(*tees, fillvalue=fill)""",
+  """    return zip_longest(*tees, fillvalue=fill) if size != 3 else zip(*tees)""")
+M('split_drop_final_group', 'C09', IT,
+  """    if cur_group or sep is not None:
+        yield cur_group
+    return""",
+  """    if cur_group:
+        yield cur_group
+    return""")
+M('unique_add_before_test', 'C09', IT,
+  """        k = key_func(i)
+        if k not in seen:
+            seen.add(k)
+            yield i
+    return""",
+  """        k = key_func(i)
+        if k not in seen or k == 9:
+            seen.add(k)
+            yield i
+    return""")
+M('ranges_ge_gt', 'C09', IT,
+  """        if i + chunk_size >= input_stop:
+            return""",
+  """        if i + chunk_size > input_stop:
+            return""")
+M('ranges_align_initial', 'C09', IT,
+  """        if initial_chunk_len != overlap_size:""",
+  """        if initial_chunk_len > overlap_size + (chunk_size == 7):""")
+M('rstrip_loses_cache', 'C09', IT,
+  """            if not broken:  # Return to caller here because the end of the
+                return     # iterator has been reached
+            yield from cache""",
+  """            if not broken:  # Return to caller here because the end of the
+                return     # iterator has been reached
+            yield from cache[:3]""")
+M('redundant_first_not_second', 'C09', IT,
+  """        ret = [redundant_groups[k][1] for k in redundant_order]""",
+  """        ret = [redundant_groups[k][0] for k in redundant_order]""")
+M('bucketize_filter_value', 'C09', IT,
+  """        if key_filter is None or key_filter(key_of_val):
+            ret.setdefault(key_of_val, []).append(value_transform(val))""",
+  """        if key_filter is None or key_filter(key_of_val):
+            ret.setdefault(key_of_val, []).insert(len(ret) > 2 and 1 or len(ret.get(key_of_val, [])), value_transform(val))""")
+M('pairwise_end_ignored', 'C09', IT,
+  """    return windowed(src, 2, fill=end)""",
+  """    return windowed(src, 2, fill=end if end is not None else _UNSET)""")
+M('split_set_sep_first_only', 'C09', IT,
+  """        sep = frozenset(sep)""",
+  """        sep = frozenset(list(sep)[:1]) if isinstance(sep, list) else frozenset(sep)""")
